@@ -77,3 +77,38 @@ Proof.
   rewrite HE'. cbn [set_ExtensionFlags ExtensionFlags DataFlags andb].
   destruct (id7_facts _ Hx) as (_ & _ & _ & E4 & E5). rewrite E5. unfold bit. rewrite E4. repeat split; reflexivity.
 Qed.
+
+(* ---------------- the time survives the wire: SetEBPTime, Data(), decode, EBPTime ---------------- *)
+Lemma time_survives_wire_comcast g e tm :
+  cons_comcast (SetEBPTime e tm) -> TimeFlag e = true ->
+  (2147483648 * 1000000000 <= tm < (4294967296 + 2147483648) * 1000000000)%Z ->
+  exists e', ReadEncoderBoundaryPoint g (fst (ComcastData (SetEBPTime e tm))) = Ok (Comcast, e')
+             /\ (tm <= EBPTime e' <= tm + 1)%Z.
+Proof.
+  intros C HT R. destruct (build_encode_decode_comcast g _ C) as [_ D].
+  exists (canon_comcast (SetEBPTime e tm)). split; [exact D|].
+  assert (HT' : TimeFlag (SetEBPTime e tm) = true).
+  { unfold SetEBPTime. destruct (insertUtcTime tm). exact HT. }
+  unfold EBPTime, canon_comcast. cbn [TimeSeconds TimeFraction]. rewrite HT'.
+  apply (Proofs.EbpTime.time_roundtrip e tm R).
+Qed.
+
+Lemma time_survives_wire_cablelabs g e tm :
+  cons_cablelabs (SetEBPTime e tm) -> TimeFlag e = true ->
+  (2147483648 * 1000000000 <= tm < (4294967296 + 2147483648) * 1000000000)%Z ->
+  exists e', ReadEncoderBoundaryPoint g (fst (CableLabsData (SetEBPTime e tm))) = Ok (CableLabs, e')
+             /\ (tm <= EBPTime e' <= tm + 1)%Z.
+Proof.
+  intros C HT R. destruct (build_encode_decode_cablelabs g _ C) as [_ D].
+  exists (canon_cablelabs (SetEBPTime e tm)). split; [exact D|].
+  assert (HT' : TimeFlag (SetEBPTime e tm) = true).
+  { unfold SetEBPTime. destruct (insertUtcTime tm). exact HT. }
+  unfold EBPTime, canon_cablelabs. cbn [TimeSeconds TimeFraction]. rewrite HT'.
+  apply (Proofs.EbpTime.time_roundtrip e tm R).
+Qed.
+
+(* an EMPTY EBP (length byte 0) is outside the property: it decodes, but Data() returns no bytes at all *)
+Lemma empty_ebp_data :
+  (exists e, ReadEncoderBoundaryPoint false [169; 0] = Ok (Comcast, e) /\ IsEmpty e = true /\ fst (ComcastData e) = [])
+  /\ (exists e, ReadEncoderBoundaryPoint false [223; 0] = Ok (CableLabs, e) /\ IsEmpty e = true /\ fst (CableLabsData e) = []).
+Proof. split; eexists; repeat split; vm_compute; reflexivity. Qed.
